@@ -22,8 +22,8 @@ import (
 	"github.com/prometheus/common/promslog"
 	"google.golang.org/protobuf/types/known/timestamppb"
 
-	v2 "github.com/prometheus/alertmanager/api/v2"
 	"github.com/prometheus/alertmanager/alert"
+	v2 "github.com/prometheus/alertmanager/api/v2"
 	"github.com/prometheus/alertmanager/config"
 	"github.com/prometheus/alertmanager/dispatch"
 	"github.com/prometheus/alertmanager/eventrecorder"
@@ -47,15 +47,15 @@ func collidingPair(r *vh.Rand) (M, M, []string) {
 	b := func(s string) []byte { return []byte(s) }
 	switch r.Intn(5) {
 	case 0: // n=~p  as  = with value ~p   vs   =~ with value p
-		return M{0, b(n), b("~" + p)}, M{2, b(n), b(p)}, []string{n}
+		return M{T: 0, N: b(n), V: b("~" + p)}, M{T: 2, N: b(n), V: b(p)}, []string{n}
 	case 1: // n==v  as  = with value =v   vs   name n= with value v
-		return M{0, b(n), b("=" + v)}, M{0, b(n + "="), b(v)}, []string{n, n + "="}
+		return M{T: 0, N: b(n), V: b("=" + v)}, M{T: 0, N: b(n + "="), V: b(v)}, []string{n, n + "="}
 	case 2: // n!=v  as  != on n   vs   = on the name n!
-		return M{1, b(n), b(v)}, M{0, b(n + "!"), b(v)}, []string{n, n + "!"}
+		return M{T: 1, N: b(n), V: b(v)}, M{T: 0, N: b(n + "!"), V: b(v)}, []string{n, n + "!"}
 	case 3: // n!=~p  as  != with value ~p   vs   =~ on the name n!
-		return M{1, b(n), b("~" + p)}, M{2, b(n + "!"), b(p)}, []string{n, n + "!"}
+		return M{T: 1, N: b(n), V: b("~" + p)}, M{T: 2, N: b(n + "!"), V: b(p)}, []string{n, n + "!"}
 	default: // n!~p  as  !~ on n   vs   = on the name n! with value ~p
-		return M{3, b(n), b(p)}, M{0, b(n + "!"), b("~" + p)}, []string{n, n + "!"}
+		return M{T: 3, N: b(n), V: b(p)}, M{T: 0, N: b(n + "!"), V: b("~" + p)}, []string{n, n + "!"}
 	}
 }
 
